@@ -23,6 +23,7 @@ type Case struct {
 	D        hellospec.Desc
 	Fragment int
 	Segment  int
+	TailCCS  int
 	WantH1   bool
 }
 
@@ -198,6 +199,15 @@ func buildCases(rng *rand.Rand, tier string) []Case {
 		c2 := add("segment-3-h1", "normal", d)
 		c2.Segment = 3
 	}
+	// the hello in two segments, the second one carrying the next record as well (change_cipher_spec right behind the hello)
+	{
+		c := add("hello-tail-with-ccs-100", "normal", b13.Clone())
+		c.TailCCS = 100
+		d := b13.Clone()
+		d.ALPN = []string{"http/1.1"}
+		c2 := add("hello-header-then-rest-with-ccs-h1", "normal", d)
+		c2.TailCCS = 5
+	}
 	// ---- inputs behind known findings
 	{
 		d := b13.Clone()
@@ -236,7 +246,7 @@ func buildCases(rng *rand.Rand, tier string) []Case {
 
 func runCase(st *stack.Stack, c Case, idx int) CaseObs {
 	obs := CaseObs{Name: c.Name, Class: c.Class, Fragmented: c.Fragment > 0, Segment: c.Segment}
-	cl, err := stack.DialUTLS(st.Addr, c.D.Spec(), stack.DialOpts{Segment: c.Segment, Fragment: c.Fragment, ALPN: c.D.ALPN, SNI: c.D.SNI})
+	cl, err := stack.DialUTLS(st.Addr, c.D.Spec(), stack.DialOpts{Segment: c.Segment, Fragment: c.Fragment, TailCCS: c.TailCCS, ALPN: c.D.ALPN, SNI: c.D.SNI})
 	if cl != nil && cl.Raw != nil {
 		msg := cl.Raw.HelloMessage()
 		obs.HelloHex = hex.EncodeToString(msg)
